@@ -16,13 +16,21 @@ var modelled = []string{"sum", "+", "dif", "-", "product", "*", "quotient", "/",
 	"lt", "<", "lte", "<=", "gt", ">", "gte", ">=", "equal", "eq", "==", "neq", "!=",
 	"and", "or", "not", "cond",
 	"get", "getall", "set", "setall", "del", "delall", "each", "at", "root", "asm",
-	"quote", "list", "nth", "size", "array?", "bool?", "map?", "nil?", "null?", "num?", "string?"}
+	"quote", "list", "nth", "size", "array?", "bool?", "map?", "nil?", "null?", "num?", "string?",
+	"append", "float", "include", "int", "join", "replace", "reverse", "sort", "split",
+	"string", "substr", "title", "tolower", "toupper", "trim"}
+
+// unmodelledFns: the clock (time, time?, zone) and the printer to stdout (inspect) have crash, determinism,
+// print and $.src oracles only.
+var unmodelledFns = []string{"inspect", "time", "time?", "zone"}
 
 // eager are the modelled functions whose arguments are all evaluated values (Spec.describe).
 var eager = []string{"sum", "+", "dif", "-", "product", "*", "quotient", "/", "mod",
 	"lt", "<", "lte", "<=", "gt", ">", "gte", ">=", "equal", "eq", "==", "neq", "!=",
 	"and", "or", "not", "at", "root", "list", "nth", "size",
-	"array?", "bool?", "map?", "nil?", "null?", "num?", "string?"}
+	"array?", "bool?", "map?", "nil?", "null?", "num?", "string?",
+	"tolower", "toupper", "title", "trim", "replace", "split", "substr", "join", "int", "float", "string",
+	"reverse", "append", "include"}
 
 var mutators = map[string]bool{"set": true, "setall": true, "del": true, "delall": true}
 
